@@ -15,6 +15,9 @@ pub const WBLK: &str = "id: wblk\nsteps:\n  - id: s1\n    acts:\n      - uses: a
 pub const WHOOK: &str = "id: whook\nsetup:\n  - uses: acts.core.msg\n    on: step\n    key: stepdone\nsteps:\n  - id: s1\n    catches:\n      - on: e1\n        steps:\n          - id: cs\n            acts:\n              - uses: acts.core.irq\n                key: c1\n    acts:\n      - uses: acts.core.irq\n        key: a1\n        timeout:\n          - on: 1s\n            steps:\n              - id: t1\n  - id: s2\n    acts:\n      - uses: acts.core.irq\n        key: a2\n";
 pub const WOUT: &str = "id: wout\ninputs:\n  x: 0\noutputs:\n  x:\n  y:\nsteps:\n  - id: s1\n    acts:\n      - uses: acts.core.irq\n        key: a1\n        outputs:\n          y:\n      - uses: acts.transform.set\n        params:\n          x: 7\n      - uses: acts.core.irq\n        key: a2\n  - id: s2\n    if: y > 0\n    acts:\n      - uses: acts.core.irq\n        key: a3\n";
 
+/// one client action writes variables of two enclosing tasks; later acts and the outputs read them
+pub const WD3: &str = "id: wd3\ninputs:\n  a: 0\noutputs:\n  a:\n  b:\nsteps:\n  - id: s1\n    inputs:\n      b: 0\n    acts:\n      - uses: acts.core.irq\n        key: a1\n      - uses: acts.core.irq\n        key: a2\n        inputs:\n          seen_a: \"{{ a }}\"\n          seen_b: \"{{ b }}\"\n  - id: s2\n    acts:\n      - uses: acts.core.irq\n        key: a3\n        inputs:\n          seen_a: \"{{ a }}\"\n";
+
 #[derive(Clone, Debug)]
 pub struct Scn {
     pub id: String,
@@ -40,6 +43,7 @@ pub fn scenarios(tier: Tier) -> Vec<Scn> {
         ("wblk", WBLK),
         ("whook", WHOOK),
         ("wout", WOUT),
+        ("wd3", WD3),
     ];
     for sqlite in [false, true] {
         for (name, yml) in &models {
@@ -193,7 +197,8 @@ pub fn run(sc: &Scn, interrupt_at: &[usize]) -> Obs {
         };
         let opts = match kind {
             "error" => json!({"ecode": "e1", "y": 1}),
-            _ => json!({"y": 1}),
+            // the options also write the variables a and b wherever a workflow declares them
+            _ => json!({"y": 1, "a": 5, "b": 7}),
         };
         let r = sess.act(kind, "p1", &m.tid, &vars_of(&opts));
         obs.results.push(format!("{kind} {} => {}", m.key, if r.is_ok() { "ok".to_string() } else { erase_ids(&format!("{:?}", r)) }));
@@ -263,7 +268,7 @@ impl Check for C12 {
         CheckInfo {
             id: "C12",
             level: "model_checking",
-            rule: "13 workflows (sequential, branches, catches, parallel / sequence / block generators, parked branches, env, propagating variables, hooks + catch + timeout, declared outputs with a conditional step) x client scripts (complete everything; one action replaced by error / skip / submit at each position) x both stores; for every quiescent point q of the uninterrupted run A (every pair q1 < q2 in thorough) a run B repeats A's choices up to q, evicts the process from the cache (in-memory store) or starts a new engine on the same SQLite file, and continues with the same client operations; B's messages after q (ids, times erased), client results, terminal event and final task outcomes must equal A's".into(),
+            rule: "14 workflows (sequential, branches, catches, parallel / sequence / block generators, parked branches, env, propagating variables, hooks + catch + timeout, declared outputs with a conditional step, one action writing variables of two enclosing tasks) x client scripts (complete everything; one action replaced by error / skip / submit at each position) x both stores; for every quiescent point q of the uninterrupted run A (every pair q1 < q2 in thorough) a run B repeats A's choices up to q, evicts the process from the cache (in-memory store) or starts a new engine on the same SQLite file, and continues with the same client operations; B's messages after q (ids, times erased), client results, terminal event and final task outcomes must equal A's".into(),
             assumptions: vec!["FIFO order of queued engine work in both runs (the differential needs one schedule; other schedules are the subject of C01-C08)".into()],
             budget_s: tier.pick(50, 900),
             exhaustive_when_uncapped: true,
